@@ -88,6 +88,9 @@ func c12Types(thorough bool) []c12Type {
 	add(symbols.NewStructType(n("/kind"), ast.NameBound, f, ast.NumberBound))
 	add(symbols.NewStructType(n("/kind"), symbols.NewSingletonType(n("/k1")), f, ast.NumberBound))
 	add(symbols.NewStructType())
+	// only optional fields: the empty struct is a member
+	add(symbols.NewStructType(symbols.NewOpt(g, ast.NumberBound)))
+	add(symbols.NewStructType(symbols.NewOpt(f, ast.StringBound), symbols.NewOpt(g, ast.NumberBound)))
 	add(symbols.NewUnionType())
 	add(symbols.NewTaggedUnionType(n("/kind"), n("/k1"), symbols.NewStructType(f, ast.NumberBound), n("/k2"), symbols.NewStructType(g, ast.StringBound)))
 	add(symbols.NewTaggedUnionType(n("/kind"), n("/k1"), symbols.NewStructType(f, ast.NumberBound)))
